@@ -42,6 +42,15 @@ func (u *eventDispatcher) dispatchLoop(ctx context.Context) {
 	}
 }
 
+// wake makes dispatchLoop look at its context again. The loop holds cond.L from that look until
+// its Wait, so the wake-up is sent with the lock held: a bare Broadcast could fall in between and
+// be lost, and the loop would then sleep forever.
+func (u *eventDispatcher) wake() {
+	u.cond.L.Lock()
+	u.cond.Broadcast()
+	u.cond.L.Unlock()
+}
+
 func (u *eventDispatcher) addHandler(f func()) {
 	u.cond.L.Lock()
 	u.handler = append(u.handler, f)
